@@ -184,10 +184,11 @@ def build(rng, kind, nin=1, pos=0, ht=1, mutate=None, annex=None, enc=None, wn=3
         isk = rng.randrange(1, R.N)
         q, par, p, _ = taproot_output(isk, [])
         spk = b"\x51\x20" + q
-    elif kind in ("p2tr-script", "p2tr-csa", "p2tr-codesep", "p2tr-cs-unexec", "p2tr-weight", "p2tr-keytype", "p2tr-path", "p2tr-item"):
+    elif kind in ("p2tr-script", "p2tr-csa", "p2tr-codesep", "p2tr-cs-unexec", "p2tr-weight", "p2tr-keytype", "p2tr-path", "p2tr-item", "p2tr-empty"):
         isk = rng.randrange(1, R.N)
         lk = [K.new_x() for _ in range(3)]
         if kind == "p2tr-item": leaves = [b"\x75\x51"]
+        elif kind == "p2tr-empty": leaves = [b""] + [bytes([0x51 + (j % 16), 0x87]) for j in range(wn)]      # an EMPTY leaf script under a path of length wn (F54)
         elif kind == "p2tr-path": leaves = [push(lk[0][1]) + b"\xac"] + [bytes([0x51 + (j % 16), 0x51 + (j // 16) % 16, 0x87]) for j in range(wn)]     # control path of length wn
         elif kind == "p2tr-cs-unexec": leaves = [b"\x00\x63\xab\x68" + push(lk[0][1]) + b"\xac"]
         elif kind == "p2tr-weight": leaves = [(b"\x76" + push(lk[0][1]) + b"\xad") * wn + push(lk[0][1]) + b"\xac", b"\x51"]
@@ -323,6 +324,9 @@ def build(rng, kind, nin=1, pos=0, ht=1, mutate=None, annex=None, enc=None, wn=3
             items = [bytes(wn)]
             if wn > 520: valid = False
         elif kind in ("p2tr-cs-unexec", "p2tr-path"): items = [ssig(lk[0][0])]
+        elif kind == "p2tr-empty":
+            items = [b"\x01"]                                      # nothing runs: the single true item is the result
+            if mutate in ("wrongkey", "sigbyte"): valid = True
         elif kind == "p2tr-weight": items = [ssig(lk[0][0])]
         elif kind == "p2tr-keytype":
             items = [b"\x01"]; needs_off |= F_DUP                  # any non-empty signature passes for an unknown key type
